@@ -20,7 +20,7 @@ import struct
 import numpy as np
 
 _ADDR = re.compile(r"0x[0-9a-fA-F]+")
-_MAX_SEQ_SKEL = 12
+_MAX_SEQ_SKEL = 80
 
 
 def _is_cube_obj(v):
